@@ -36,7 +36,10 @@ func main() {
 		os.Exit(3)
 	}
 	run := common.NewRun(os.Args[1], c.level, os.Args[2:])
-	drive.OnHang = func() { hangVerdict(run) }
+	if id := os.Args[1]; id != "C08" && id != "C20B" {
+		// (C08 and C20B run the emulator in child processes and judge unanswered requests themselves)
+		drive.OnHang = func() { hangVerdict(run) }
+	}
 	c.fn(run)
 	run.Finish()
 }
